@@ -42,17 +42,18 @@ def gen_history(rng, thorough):
     base = rng.sample(range(100), n)
     calls = []
     fixed_cap = rng.choice([None, None, rng.randint(0, n + 3)])
+    container = rng.choice(['fresh', 'fresh', 'same-object', 'same-object', 'tuple'])
     for _ in range(ncalls):
         if kind == 'stable':
             l = base[:]
-            if rng.random() < 0.7:
+            if rng.random() < 0.7 and container != 'same-object':
                 rng.shuffle(l)
         else:
             m = rng.randint(0, min(100, n + 5))
             l = [rng.randrange(100) for _ in range(m)] if rng.random() < 0.3 else rng.sample(range(100), m)
         cap = fixed_cap if fixed_cap is not None else rng.choice([0, 1, len(l) // 2, max(0, len(l) - 1), len(l), len(l) + 3, rng.randint(0, len(l) + 3)])
         calls.append((l, cap))
-    return {'kind': kind, 'base': sorted(base), 'calls': calls}
+    return {'kind': kind, 'base': sorted(base), 'calls': calls, 'container': container}
 
 
 def run_impl(case):
@@ -60,12 +61,20 @@ def run_impl(case):
     cr.GLOBAL_PRIOR_COMB_COUNTS.clear()
     rev = {}
     steps = []
+    held = None                 # 'same-object': the caller keeps ONE candidate list / tuple and hands it in again while its content is the same
     for l, cap in case['calls']:
         combos = []
         for i in l:
             k = key_of(i)
             rev[k] = i
             combos.append(k)
+        if case.get('container') == 'same-object':
+            if held is not None and held[0] == l:
+                combos = held[1]
+            else:
+                held = (list(l), combos)
+        elif case.get('container') == 'tuple':
+            combos = tuple(combos)
         args = types.SimpleNamespace(combination_number_upper_bound=cap)
         if case.get('nomodel'):
             # 70000 candidates x dozens of calls: the clauses are evaluated here, call by call, instead of keeping every counter state
@@ -128,6 +137,7 @@ def evaluate(ctx: Ctx, cases, oracle_only=False):
         if ncalls >= 2 and any(0 < cap < len(l) for l, cap in c['calls']):
             ctx.nontrivial.add(hash(repr(c['calls'])))
         ctx.count('kind:' + c['kind'])
+        ctx.count('candidate-container:' + c.get('container', 'fresh'))
         ctx.count('calls:%d' % (ncalls if ncalls < 10 else (ncalls // 10) * 10))
         for l, cap in c['calls']:
             ctx.count('cap<n' if cap < len(l) else 'cap>=n')
